@@ -21,7 +21,7 @@ POOLS = {
               'alternative', 'optional', 'Boolean', 'String', 'Real', 'cardinality', 'avg',
               'len', 'false', 'namespace', 'imports', 'include', 'as'],
     'opword': ['AND', 'OR', 'NOT', 'XOR', 'IMPLIES', 'REQUIRES', 'EXCLUDES', 'EQUIVALENCE',
-               'SUM', 'LEN', 'AVG', 'EQUALS', 'ADD', 'MUL', 'not', 'and', 'or_', 'xor'],
+               'SUM', 'LEN', 'AVG', 'EQUALS', 'ADD', 'MUL', 'SUB', 'DIV', 'LOWER', 'GREATER'],
     'digit0': ['1a', '2b', '3rd', '42', '0x', '7up', '9lives', '10', '5_5', '6six', '8',
                '11th', '123abc', '00'],
     'under0': ['_a', '_b1', '__c', '_D', '_e_', '_f9', '_g', '_H2', '_i', '_j_k', '_l', '_m',
